@@ -36,8 +36,12 @@ def aux():
     return _AUX
 
 
-def field_plan(i, f, salt):
-    """-> dict(py, xn, ftype, value, default(or None), passed)   for descriptor f at position i"""
+CONTEXTS = ["plain", "repeat", "sub-inherit", "sub-redeclare"]
+
+
+def field_plan(i, f, salt, as_parent=False):
+    """-> dict(py, xn, ftype, value, default(or None), passed)   for descriptor f at position i.
+    as_parent: the same field as a PARENT class declares it in context sub-redeclare: declared default = the 'other' value"""
     xo = U.xo()
     kind, dk, vc = f["kind"], f["dk"], f["vc"]
     py = f"f{i}"
@@ -67,7 +71,9 @@ def field_plan(i, f, salt):
     else:
         vals = dict(zero=dict(u=0, w=[0.0, 0.0]), other=dict(u=3, w=[4.0, 5.0]))
         base, dv, conv = aux()["XS"], None, (lambda v: dict(v))
-    if dk == "default":
+    if as_parent and kind in ("sc", "str", "arr", "darr"):
+        ftype = xo.Field(base, default=conv(vals["other"]))
+    elif dk == "default":
         ftype = xo.Field(base, default=conv(dv))
     elif dk == "factory":
         ftype = xo.Field(base, default_factory=(lambda d=dv, c=conv: c(d)))
@@ -77,17 +83,44 @@ def field_plan(i, f, salt):
     # pass the value explicitly unless the constructor supplies exactly it and the salt says "leave it out"
     supplied = f["sup"] == vc
     passed = not (supplied and (salt + i) % 2 == 0)
-    return dict(py=py, xn=xn, ftype=ftype, value=value, kind=kind, sk=sk, passed=passed, desc=f)
+    return dict(py=py, xn=xn, ftype=ftype, value=value, kind=kind, sk=sk, passed=passed, desc=f, other=vals["other"])
 
 
-def build_class(case, salt):
-    xo = U.xo()
-    plans = [field_plan(i, f, salt) for i, f in enumerate(case)]
+def _mk(name, bases, plans):
     ns = {"_xofields": {p["xn"]: p["ftype"] for p in plans}}
     ren = {p["xn"]: p["py"] for p in plans if p["xn"] != p["py"]}
     if ren:
         ns["_rename"] = ren
-    cls = type(U.uniq("SerH"), (xo.HybridClass,), ns)
+    return type(name, bases, ns)
+
+
+def build_class(case, salt, ctx="plain"):
+    """the class under test, defined and (for the history contexts) preceded by other conversions as ctx says"""
+    xo = U.xo()
+    plans = [field_plan(i, f, salt) for i, f in enumerate(case)]
+    others = {p["py"]: p["other"] for p in plans}
+    if ctx == "sub-redeclare":
+        parent = _mk(U.uniq("SerP"), (xo.HybridClass,), [field_plan(i, f, salt, as_parent=True) for i, f in enumerate(case)])
+        for kw in ({}, others):
+            try:
+                parent.from_dict(parent(**kw).to_dict())
+            except Exception:
+                pass                      # the parent's own conversions are other cases; here they are only history
+        cls = _mk(U.uniq("SerH"), (parent,), plans)
+    elif ctx == "sub-inherit":
+        parent = _mk(U.uniq("SerP"), (xo.HybridClass,), plans)
+        try:
+            parent.from_dict(parent(**others).to_dict())
+        except Exception:
+            pass
+        cls = type(U.uniq("SerH"), (parent,), {})
+    else:
+        cls = _mk(U.uniq("SerH"), (xo.HybridClass,), plans)
+        if ctx == "repeat":
+            try:
+                cls.from_dict(cls(**others).to_dict())
+            except Exception:
+                pass
     return cls, plans
 
 
@@ -115,11 +148,13 @@ def fkey(f, with_vc=True):
     return f"{f['kind']}:{f['dk']}" + (f":{f['vc']}" if with_vc else "") + (":renamed" if f["ren"] else "")
 
 
-def run_case(case, salt, isolate=True):
+def run_case(case, salt, ctx="plain", isolate=True):
     """-> dict(status, findings=[(key, desc)])   status in ok / violation / abandoned"""
-    cls, plans = build_class(case, salt)
+    if ctx == "any":
+        ctx = CONTEXTS[salt % len(CONTEXTS)]
+    cls, plans = build_class(case, salt, ctx)
     kw = {p["py"]: p["value"] for p in plans if p["passed"]}
-    label = "class{" + ", ".join(fkey(p["desc"]) for p in plans) + "}"
+    label = "class{" + ", ".join(fkey(p["desc"]) for p in plans) + "}" + ("" if ctx == "plain" else f" [{ctx}]")
     try:
         x = cls(**kw)
         bad = [p for p in plans if not field_equal(p["kind"], getattr(x, p["py"]), p["value"])]
@@ -134,7 +169,7 @@ def run_case(case, salt, isolate=True):
             return [fkey(p["desc"]) for p in plans] if len(case) == 1 else ["?"]
         res = []
         for p in plans:
-            r = run_case([p["desc"]], salt, isolate=False)
+            r = run_case([p["desc"]], salt, ctx, isolate=False)
             if any(k.startswith(stage + ":raised:" + exc) for k, _ in r["findings"]):
                 res.append(fkey(p["desc"]))
         return sorted(set(res)) or ["interaction"]
@@ -196,12 +231,22 @@ def run_case(case, salt, isolate=True):
     return dict(status="violation" if res else "ok", findings=res)
 
 
+def run_case_ctx(case, salt, ctx):
+    """a failure that only shows in a definition context (subclass, earlier conversions) carries the context in its key"""
+    r = run_case(case, salt, ctx)
+    real = CONTEXTS[salt % len(CONTEXTS)] if ctx == "any" else ctx
+    if r["findings"] and real != "plain":
+        plain = {k for k, _ in run_case(case, salt, "plain")["findings"]}
+        r["findings"] = [(k if k in plain else f"{k}:ctx={real}", d) for k, d in r["findings"]]
+    return r
+
+
 def _worker_a(task):
     os.chdir(os.environ.get("VERIF_C19_TMP", "/tmp"))
     res = []
-    for cid, case, salt in task:
+    for cid, case, ctx, salt in task:
         try:
-            r = run_case(case, salt)
+            r = run_case_ctx(case, salt, ctx)
         except Exception:
             import traceback
             r = dict(status="machinery", findings=[], err=traceback.format_exc()[-1500:])
@@ -424,7 +469,7 @@ def validate_json(recs, nbatch):
         wd = C.scratch("c19tr")
         path = os.path.join(wd, "cases.json")
         json.dump([dict(tx=tx_for_tlc(r["tx"]), x=r["x"], j=r["j"], y=r["y"]) for r in batches[bi]], open(path, "w"))
-        open(os.path.join(wd, "tr.cfg"), "w").write("SPECIFICATION TraceSpec\nCONSTANTS MaxFields = 1 SeqUpTo = 1\nINVARIANT Verdict\nCHECK_DEADLOCK FALSE\n")
+        open(os.path.join(wd, "tr.cfg"), "w").write("SPECIFICATION TraceSpec\nCONSTANTS MaxFields = 1 SeqUpTo = 1 CtxUpTo = 0\nINVARIANT Verdict\nCHECK_DEADLOCK FALSE\n")
         res = C.run_tlc("XoSerialTrace", "tr.cfg", workdir=wd, workers=1, timeout=3000, env={"TRACE_FILE": path}, jvm=("-Xmx2g",))
         vs = C.tlc_tuples(res["out"], "VERDICT")
         if res["rc"] != 0 or len(vs) != len(batches[bi]):
@@ -442,10 +487,10 @@ def validate_json(recs, nbatch):
 
 
 # ============================================================================= TLC for part A
-def tlc_cases(maxf, sequpto):
+def tlc_cases(maxf, sequpto, ctxupto, stride, seed):
     wd = C.scratch("c19gen")
-    cfg = (f"SPECIFICATION Spec\nCONSTANTS MaxFields = {maxf} SeqUpTo = {sequpto}\nINVARIANT Satisfiable\nINVARIANT RoundTrip\n"
-           "INVARIANT ElisionRespected\nINVARIANT Exact\nINVARIANT Emit\nCHECK_DEADLOCK FALSE\n")
+    cfg = (f"SPECIFICATION Spec\nCONSTANTS MaxFields = {maxf} SeqUpTo = {sequpto} CtxUpTo = {ctxupto} Stride = {stride} Seed = {seed % 1000}\n"
+           "INVARIANT Satisfiable\nINVARIANT RoundTrip\nINVARIANT ElisionRespected\nINVARIANT Exact\nINVARIANT Emit\nCHECK_DEADLOCK FALSE\n")
     open(os.path.join(wd, "gen.cfg"), "w").write(cfg)
     res = C.run_tlc("XoSerialGen", "gen.cfg", workdir=wd, workers=1, timeout=3000, jvm=("-Xmx3g",))
     shutil.rmtree(wd, ignore_errors=True)
@@ -456,16 +501,16 @@ def tlc_cases(maxf, sequpto):
         if line.startswith('"{'):
             rec = json.loads(json.loads(line))
             if "case" in rec:
-                cases.append(rec["case"])
+                cases.append((rec["case"], rec["ctx"]))
             elif "deviations" in rec:
                 dev = rec["deviations"]
     res["out"] = ""
     return cases, dev, res
 
 
-def tlc_theorem(maxf, sequpto, workers):
+def tlc_theorem(maxf, sequpto, ctxupto, workers):
     wd = C.scratch("c19mc")
-    cfg = (f"SPECIFICATION Spec\nCONSTANTS MaxFields = {maxf} SeqUpTo = {sequpto}\nINVARIANT Satisfiable\nINVARIANT RoundTrip\n"
+    cfg = (f"SPECIFICATION Spec\nCONSTANTS MaxFields = {maxf} SeqUpTo = {sequpto} CtxUpTo = {ctxupto}\nINVARIANT Satisfiable\nINVARIANT RoundTrip\n"
            "INVARIANT ElisionRespected\nINVARIANT Exact\nCHECK_DEADLOCK FALSE\n")
     open(os.path.join(wd, "mc.cfg"), "w").write(cfg)
     res = C.run_tlc("XoSerial", "mc.cfg", workdir=wd, workers=workers, timeout=3000, jvm=("-Xmx4g",))
@@ -478,8 +523,10 @@ def tlc_theorem(maxf, sequpto, workers):
 TIERS = {
     # export = (MaxFields, SeqUpTo) enumerated with Emit and replayed (all, or `sample3` of the largest size);
     # theorem = (MaxFields, SeqUpTo) checked without export
-    "quick": dict(export=(3, 2), replay_big=3500, theorem=(3, 2), json_random=4000, batches=4),
-    "thorough": dict(export=(3, 2), replay_big=None, theorem=(4, 2), json_random=30000, batches=8),
+    # export = (MaxFields, SeqUpTo, CtxUpTo, Stride): all definitions are CHECKED by TLC, those up to SeqUpTo fields and every Stride-th
+    # larger one are exported and replayed;  theorem = a larger space checked without export (None: the export run is the check)
+    "quick": dict(export=(3, 2, 1, 12), theorem=None, json_random=4000, batches=4),
+    "thorough": dict(export=(3, 2, 2, 1), theorem=(4, 2, 2), json_random=30000, batches=8),
 }
 
 
@@ -502,7 +549,7 @@ def check(pid, argv=None):
         rp = json.load(open(run.replay))["replay"]
         run.cov["traces_validated_against_impl"] = 1
         if rp["part"] == "A":
-            r = run_case(rp["case"], rp["salt"])
+            r = run_case_ctx(rp["case"], rp["salt"], rp.get("ctx", "plain"))
             for key, desc in r["findings"]:
                 run.report(key, desc, rp)
         else:
@@ -515,8 +562,8 @@ def check(pid, argv=None):
     pool = ProcessPoolExecutor(max_workers=min(C.NCPU, 8), mp_context=multiprocessing.get_context("spawn"))
     try:
         with ThreadPoolExecutor(max_workers=3) as ex:
-            f_cases = ex.submit(tlc_cases, *tier["export"])
-            f_thm = ex.submit(tlc_theorem, *tier["theorem"], 4)
+            f_cases = ex.submit(tlc_cases, *tier["export"], run.seed)
+            f_thm = ex.submit(tlc_theorem, *tier["theorem"], 6) if tier["theorem"] else None
             # ---- part B runs while TLC enumerates part A
             rng = random.Random(run.seed * 31 + 19)
             jcases = []
@@ -533,45 +580,43 @@ def check(pid, argv=None):
             cases, dev, res = f_cases.result()
             run.add_tlc(res)
             run.notes["t_export"] = round(time.time() - t1, 1)
-            big = max(len(c) for c in cases)
-            small = [c for c in cases if len(c) < big]
-            bigs = [c for c in cases if len(c) == big]
-            if tier["replay_big"] is not None and len(bigs) > tier["replay_big"]:
-                random.Random(run.seed + 191).shuffle(bigs)
-                bigs = bigs[:tier["replay_big"]]
-            todo = [(i, c, run.seed + i) for i, c in enumerate(small + bigs)]
+            big = max(len(c[0]) for c in cases)
+            todo = [(i, c, ctx, run.seed + i) for i, (c, ctx) in enumerate(cases)]
             futs = [pool.submit(_worker_a, todo[i:i + 250]) for i in range(0, len(todo), 250)]
             results = []
             for f in futs:
                 results += f.result()
-            thm = f_thm.result()
-            run.add_tlc(thm)
+            thm = f_thm.result() if f_thm else res
+            if f_thm:
+                run.add_tlc(thm)
             f_val.result()
     finally:
         pool.shutdown(wait=True, cancel_futures=True)
     run.notes["t_total"] = round(time.time() - t1, 1)
     status = collections.Counter()
     per_desc = collections.Counter()
-    byid = {i: (c, s) for i, c, s in todo}
+    byid = {i: (c, x, s) for i, c, x, s in todo}
+    per_ctx = collections.Counter()
     for cid, r in results:
         status[r["status"]] += 1
         if r["status"] == "machinery":
             raise C.MachineryError("part A harness failed:\n" + r["err"])
         if r["status"] == "abandoned":
             run.count("abandoned_precondition:A:" + r["why"])
-        case, salt = byid[cid]
+        case, ctx, salt = byid[cid]
+        per_ctx[ctx if ctx != "any" else "any->" + CONTEXTS[salt % len(CONTEXTS)]] += 1
         for f in case:
             per_desc[f"{f['kind']}:{f['dk']}:{f['vc']}" + (":ren" if f["ren"] else "")] += 1
         for key, desc in r["findings"]:
-            run.report(key, desc, dict(part="A", case=case, salt=salt))
-    run.notes["partA"] = dict(cases_enumerated=len(cases), replayed=len(results), by_size={n: sum(1 for _, c, _ in todo if len(c) == n) for n in range(1, big + 1)},
+            run.report(key, desc, dict(part="A", case=case, salt=salt, ctx=ctx))
+    run.notes["partA"] = dict(definitions_checked_by_tlc=res["distinct"], exported=len(cases), replayed=len(results), by_size={n: sum(1 for t in todo if len(t[1]) == n) for n in range(1, big + 1)}, by_context=dict(per_ctx),
                               status=dict(status), theorem=dict(states=thm["distinct"], wall=round(thm["wall"], 1)),
                               descriptors_exercised=len(per_desc), min_cases_per_descriptor=min(per_desc.values()) if per_desc else 0)
     run.notes["pinned_tree_deviations_predicted_by_the_transcribed_code_model"] = [
         f"{d['kind']}:{d['dk']}:{d['vc']}{':ren' if d['ren'] else ''} code={d['code']} contract={d['contract']}" for d in dev]
     run.cov["traces_validated_against_impl"] += len(results)
-    for i, c, s in todo[:2] + todo[-2:]:
-        run.sample(dict(part="A", fields=[fkey(f) + "/" + f["pres"] for f in c]))
+    for i, c, x, s in todo[:2] + todo[-2:]:
+        run.sample(dict(part="A", ctx=x, fields=[fkey(f) + "/" + f["pres"] for f in c]))
     run.cov["exhaustive"] = False
     run.finish()
 
